@@ -788,6 +788,20 @@ pub fn conc_record(args: &Args) -> i32 {
             writeln!(out, "{}", event("Fresh", json!({"fn":f,"x":x,"hash":format!("{:016x}", h)}))).unwrap();
         }
     }
+    // the same calls on threads that may use one processor only
+    for f in 0..NFN {
+        for x in 0..nin(f) {
+            let h = std::thread::scope(|s| s.spawn(|| {
+                unsafe {
+                    let mut set: libc::cpu_set_t = std::mem::zeroed();
+                    libc::CPU_SET(0, &mut set);
+                    libc::sched_setaffinity(0, std::mem::size_of::<libc::cpu_set_t>(), &set);
+                }
+                call(f, x)
+            }).join().unwrap_or(6));
+            writeln!(out, "{}", event("End", json!({"t":0,"fn":f,"x":x,"round":-5,"rep":1,"hash":format!("{:016x}", h)}))).unwrap();
+        }
+    }
     // the main thread, one call after the other
     for f in 0..NFN {
         for x in 0..nin(f) {
